@@ -9,6 +9,7 @@
   much in the running program is measured by the hostile-peer runs.
 -/
 import Amqp.FrameHeader
+import Amqp.Gen.Panics
 import Theorems.C12
 import Theorems.C13
 import Theorems.C02
@@ -17,6 +18,16 @@ import Theorems.C09
 
 namespace Amqp.FrameHeader
 open Amqp.Gen.FrameHeader
+
+/-- generated obligation: the functions that act on what the peer sends — every `on_incoming*` of the
+    connection, the session, the links, their listener and transaction variants, the two frame
+    decoders and the engines' dispatchers, 48 functions — contain no index expression, `unwrap`,
+    `expect` or panicking macro, with one exception: the listener's `on_incoming_begin` looks up the
+    relay it has just allocated in the same function (`expect("relay was just allocated")`), which the
+    peer's input cannot make fail.  A table lookup by a number the peer chose has to be a `get`. -/
+theorem no_panic_site_on_peer_input :
+    Amqp.Gen.Panics.sites = [("acceptor/connection.rs::on_incoming_begin#0", 1)] ∧
+    40 ≤ Amqp.Gen.Panics.functions_inspected := by decide
 
 /-- **the header is never read from too few bytes**: for every byte string the AMQP frame
     decoder's header step returns a header or an error — never the panic of `Buf::get_*` -/
